@@ -109,7 +109,7 @@ def class_info(cfg):
         return ClassInfo(p[0] if p[1] == "RAM" else 0,
                          p[0] if p[1] == "DISK" else 0, 1)
     if c == "TwoLevel":
-        blocks = -(-N // p[0])
+        blocks = -(-N // p[0]) if p[0] >= 1 else 0
         if p[2] == "RAM":
             return ClassInfo(p[1], blocks, None)
         return ClassInfo(0, blocks + p[1], None)
